@@ -322,6 +322,17 @@ def state_amplitudes(state, simname):
     elif simname == "fermionic_fock":
         from piquasso.fermionic._utils import get_fock_space_basis
         basis = get_fock_space_basis(state.d, state._config.cutoff)
+    elif simname == "fock":
+        from piquasso._math.fock import get_fock_space_basis
+        basis = get_fock_space_basis(d=state.d, cutoff=state._config.cutoff)
+        m = np.asarray(state.density_matrix)
+        out = []
+        for i, kv in enumerate(basis):
+            for j, bv in enumerate(basis):
+                x = m[i, j]
+                if abs(x) > 1e-13:
+                    out.append([[int(k) for k in kv], [int(k) for k in bv], qpair(x.real), qpair(x.imag)])
+        return {"dentries": out, "dim": int(m.shape[0]), "basis_len": int(len(basis))}
     else:
         return None
     v = np.asarray(state.state_vector)
@@ -428,6 +439,23 @@ def run_norm(case):
     return out
 
 
+def probe_strict_cond_meas():
+    """does this tree refuse a conditioned measurement that is not the last instruction?"""
+    try:
+        prog = pq.Program(instructions=[
+            pq.NumberState([0, 1, 0]),
+            pq.ParticleNumberMeasurement().on_modes(0),
+            pq.ParticleNumberMeasurement().on_modes(1).when("x[0] > 0"),
+            pq.ParticleNumberMeasurement().on_modes(2),
+        ])
+        pq.PureFockSimulator(d=3, config=pq.Config(cutoff=4)).validate(prog)
+        return False
+    except pqexc.InvalidSimulation as e:
+        return "conditional measurement" in str(e)
+    except Exception:
+        return False
+
+
 def main():
     req = json.load(sys.stdin)
     out = {
@@ -436,6 +464,7 @@ def main():
         "seqjoint": [run_seqjoint(c) for c in req.get("seqjoint", [])],
         "norm": [run_norm(c) for c in req.get("norm", [])],
         "piquasso_file": pq.__file__,
+        "strict_cond_meas": probe_strict_cond_meas(),
     }
     print(json.dumps(out))
 
